@@ -50,6 +50,8 @@ inductive Err where
   | deleteFiles | notParquet | remoteUri | unknownSnapshot | noCurrentSnapshot | emptySnapshot | noMetadata | hintMissing
 deriving Repr, DecidableEq
 
+deriving instance DecidableEq for Except
+
 /-- one entry of `data_files_of`'s inner loop: skip DELETED first, then refuse delete files, non-Parquet, remote URIs -/
 def entryFile (e : Entry) : Except Err (Option Nat) :=
   if e.status = 2 then .ok none
